@@ -378,6 +378,32 @@ class Check(FormulaCheck):
                         return _junk
                     return None
                 p.on(evname, listener)
+            if rnd.random() < 0.25:
+                # a listener that was subscribed and unsubscribed again before the evaluation - as a bound method (a new, equal object at every
+                # access), a callable object, a function, through on() or once(): it is gone, whatever was subscribed around it stays
+                class Provider(object):
+                    def answer(self, *a):
+                        calls.append('removed-listener-called')
+                        if evname != 'callFunction':
+                            a[-1]('from-removed-listener')
+
+                    def __call__(self, *a):
+                        self.answer(*a)
+                prov = Provider()
+                how_removed = rnd.choice(['bound-method', 'callable-object', 'once-bound-method', 'off-name-then-readd'])
+                if how_removed == 'bound-method':
+                    p.on(evname, prov.answer)
+                    p.off(evname, prov.answer)
+                elif how_removed == 'callable-object':
+                    p.on(evname, prov)
+                    p.off(evname, prov)
+                elif how_removed == 'once-bound-method':
+                    p.once(evname, prov.answer)
+                    p.off(evname, prov.answer)
+                elif not script:
+                    p.on(evname, prov.answer)
+                    p.off(evname)
+                rec.cov('removed_listener', how_removed)
             if reenter:
                 # the nested formula's own references also raise events on this parser: give them values through separate listeners
                 for ev2 in ('callCellValue', 'callRangeValue', 'callVariable', 'callFunction'):
@@ -403,6 +429,8 @@ class Check(FormulaCheck):
             self.expect('C10/setter:%s%s' % (kind, tag), ok, listener_returns=returns,
                         formula=f, script=script, record=r, expected=exp)
             self.expect('C10/events:%s-listeners-not-each-called-once' % kind, calls == list(range(nl)), formula=f, calls=calls, listeners=nl)
+            if 'removed-listener-called' in calls:
+                rec.violation('C10/events:unsubscribed-listener-still-called', formula=f, kind=kind, calls=calls)
             rec.nt((f, repr(script)))
             rec.cov('setter_patterns', (kind, nl, min(len(flat), 3)))
             rec.sample({'formula': f, 'listener_scripts': repr(script), 'expected': repr(exp)}, k=6)
